@@ -149,6 +149,21 @@ CHECKS = {
         "by LP feasibility at 1e-6 (qhull's planes are accurate to ~1e-7), not proved; sklearn normalize and the barycentric map "
         "are those of C16; model tied to code by the per-run correspondence.",
         "5/C12"),
+    "C18": (
+        "Lean 4 proof (width invariances over any ordered field; divergence bounds over the reals) + Float-model correspondence on the same direction sample and closed-form families",
+        "Theorems in lean/Dreye/Props/C18.lean prove: the width max+max(-) along any direction is translation invariant, "
+        "homogeneous, non-negative, monotone under adding points and invariant under an isometry applied to direction and "
+        "cloud; the same (exactly, per seed) for the mean over any fixed direction sample; ratio to itself 1 and to a superset "
+        "<= 1; Jensen-Shannon divergence (model of the code, base 2, 0 log 0 = 0) is symmetric, invariant to rescaling either "
+        "input, 0 for proportional inputs, >= 0 and <= 1 bit. Every run regenerates the direction sample from the seed and "
+        "compares compute_mean_width (loop and vectorised, small and >300-point clouds) with the Float run of the model, checks "
+        "the invariances on dreye's numbers, polygons against perimeter/pi at 5 sigma, volumes of boxes / simplices / polygons / "
+        "flat clouds against closed forms, gamut ratios, the estimator's fractional gamut in (0,1], and the divergence against "
+        "the Float model and the proved bounds.",
+        "Trusted: Lean kernel; libm for the Float run; qhull's volume and sklearn's PCA are engines (closed-form families only); "
+        "that the Monte-Carlo mean converges to the geometric mean width (Cauchy's formula) is NOT proved - polygons at 5 sigma "
+        "are correspondence evidence only; numpy's default_rng is the source of directions.",
+        "5/C18"),
 }
 
 NOT_YET = "check not built yet in this round of work (planned in DESIGN.md section 5); no claim is made"
